@@ -3584,6 +3584,119 @@ class Normalizer:
                     self.stats['idioms'] += 1
                     self.log.append(f'new field {cname}.{fname} turned back into a local of the function that creates the instance')
 
+    def _explode_parameter_objects(self):
+        """"Introduce parameter object" undone: a NEW record class R (not in the inventory) whose instances are only built to
+        be handed, as the single argument, to functions declared `def f(self, p: R)` that read nothing but `p.<field>`:
+        f gets the fields as keyword-only parameters again and `g(src)` with `src = R(a=x, b=y)` becomes `g(a=x, b=y)`."""
+        for rel, tree in self.trees.items():
+            inv = self.inv.get(rel)
+            if inv is None:
+                continue
+            for c in [c for c in tree.body if isinstance(c, ast.ClassDef) and c.name not in inv['classes']]:
+                is_rec = any((_dotted(b) or '').rsplit('.', 1)[-1] == 'NamedTuple' for b in c.bases) or any((_dotted(d.func if isinstance(d, ast.Call) else d) or '').rsplit('.', 1)[-1] == 'dataclass' for d in c.decorator_list)
+                if not is_rec or any(isinstance(b, FuncNode) for b in c.body):
+                    continue
+                fields = [st.target.id for st in c.body if isinstance(st, ast.AnnAssign) and isinstance(st.target, ast.Name)]
+                if not fields or any(st.value is not None for st in c.body if isinstance(st, ast.AnnAssign)):
+                    continue
+                R = c.name
+                takers = []
+                ok = True
+                for f in [f for f in ast.walk(tree) if isinstance(f, FuncNode)]:
+                    a = f.args
+                    ann = [p_ for p_ in a.posonlyargs + a.args + a.kwonlyargs if p_.annotation is not None and any(isinstance(x, ast.Name) and x.id == R for x in ast.walk(p_.annotation))]
+                    if not ann:
+                        continue
+                    ps = [p_ for p_ in a.posonlyargs + a.args if p_.arg not in ('self', 'cls')]
+                    if len(ann) != 1 or len(ps) != 1 or ps[0] is not ann[0] or a.kwonlyargs or a.vararg or a.kwarg or a.defaults:
+                        ok = False
+                        break
+                    pn = ann[0].arg
+                    parents = {}
+                    for n in ast.walk(f):
+                        for ch in ast.iter_child_nodes(n):
+                            parents[id(ch)] = n
+                    uses = [n for n in ast.walk(f) if isinstance(n, ast.Name) and n.id == pn]
+                    if not all(isinstance(parents.get(id(u)), ast.Attribute) and parents[id(u)].attr in fields and isinstance(parents[id(u)].ctx, ast.Load) for u in uses):
+                        ok = False
+                        break
+                    locals_ = {n.id for n in ast.walk(f) if isinstance(n, ast.Name) and n.id != pn} | {x.arg for x in ast.walk(f.args) if isinstance(x, ast.arg) and x.arg != pn}
+                    if locals_ & set(fields):
+                        ok = False
+                        break
+                    takers.append((f, pn, [parents[id(u)] for u in uses]))
+                if not ok or not takers:
+                    continue
+                # constructions: `v = R(...)` with v used only as the single argument of calls
+                cons = [n for n in ast.walk(tree) if isinstance(n, ast.Call) and isinstance(n.func, ast.Name) and n.func.id == R]
+                other_refs = [n for n in ast.walk(tree) if isinstance(n, ast.Name) and n.id == R and not any(n is k.func for k in cons)]
+                other_refs = [n for n in other_refs if not any(any(n is x for x in ast.walk(p_.annotation)) for f, _, _ in takers for p_ in f.args.posonlyargs + f.args.args if p_.annotation is not None)]
+                if other_refs or not cons:
+                    continue
+                plan = []
+                for k in cons:
+                    if any(isinstance(x, ast.Starred) for x in k.args) or any(kw.arg is None for kw in k.keywords) or len(k.args) > len(fields):
+                        ok = False
+                        break
+                    vals = dict(zip(fields, k.args))
+                    vals.update({kw.arg: kw.value for kw in k.keywords})
+                    if set(vals) != set(fields):
+                        ok = False
+                        break
+                    host = next((f for f in ast.walk(tree) if isinstance(f, FuncNode) and any(k is x for x in _local_walk(f))), None)
+                    if host is None:
+                        ok = False
+                        break
+                    parents = {}
+                    for n in ast.walk(host):
+                        for ch in ast.iter_child_nodes(n):
+                            parents[id(ch)] = n
+                    par = parents.get(id(k))
+                    if isinstance(par, ast.Call) and par.args == [k] and not par.keywords:
+                        plan.append((par, vals, None, host))
+                        continue
+                    if not (isinstance(par, ast.Assign) and len(par.targets) == 1 and isinstance(par.targets[0], ast.Name)):
+                        ok = False
+                        break
+                    v = par.targets[0].id
+                    if sum(1 for n in ast.walk(host) if isinstance(n, ast.Name) and n.id == v and isinstance(n.ctx, ast.Store)) != 1:
+                        ok = False
+                        break
+                    for u in [n for n in ast.walk(host) if isinstance(n, ast.Name) and n.id == v and isinstance(n.ctx, ast.Load)]:
+                        up = parents.get(id(u))
+                        if not (isinstance(up, ast.Call) and len(up.args) == 1 and up.args[0] is u and not up.keywords):
+                            ok = False
+                            break
+                        plan.append((up, vals, par, host))
+                    if not ok:
+                        break
+                    if not all(isinstance(x, (ast.Name, ast.Constant)) for x in vals.values()):
+                        ok = False
+                        break
+                if not ok or not plan:
+                    continue
+                for call, vals, asg, host in plan:
+                    call.args = []
+                    call.keywords = [ast.keyword(arg=fl, value=copy.deepcopy(vals[fl])) for fl in fields]
+                for asg, host in {id(a): (a, h) for _, _, a, h in plan if a is not None}.values():
+                    for blk_owner in ast.walk(host):
+                        for fld in ('body', 'orelse', 'finalbody'):
+                            blk = getattr(blk_owner, fld, None)
+                            if isinstance(blk, list) and any(b is asg for b in blk):
+                                blk[:] = [b for b in blk if b is not asg] or [ast.Pass()]
+                for f, pn, attrs in takers:
+                    for at in attrs:
+                        self._replace_everywhere(f, at, ast.copy_location(ast.Name(id=at.attr, ctx=ast.Load()), at))
+                    a = f.args
+                    keep = [p_ for p_ in a.posonlyargs + a.args if p_.arg in ('self', 'cls')]
+                    a.posonlyargs, a.args = [], keep
+                    a.kwonlyargs = [ast.arg(arg=fl, annotation=None) for fl in fields]
+                    a.kw_defaults = [None for _ in fields]
+                tree.body = [b for b in tree.body if b is not c]
+                ast.fix_missing_locations(tree)
+                self.stats['idioms'] += 1
+                self.log.append(f'parameter object {R} exploded back into keyword-only parameters ({len(takers)} functions, {len(plan)} call sites)')
+
     def _expand_composed_decorators(self, tree):
         """`def deco(f): return A(B(f))` used as `@deco` is the decorator stack `@A` / `@B`."""
         composed = {}
@@ -3636,6 +3749,7 @@ class Normalizer:
         self._flatten_new_bases()
         self._record_methods_to_functions()
         self._new_record_fields_to_locals()
+        self._explode_parameter_objects()
         self._positional_calls()
         self._reoutline()
         self._class_index()
